@@ -63,6 +63,67 @@ REJECTED = {"Stale", "HandedBack", "ParentNotCommitted", "NotEnough", "Disabled"
             "Poisoned"}
 
 
+def score(beh, focus):
+    """Selection heuristic only (never an oracle): how many features relevant to the focus a behaviour has."""
+    if focus == "sync":
+        # many successful commits, runs of commits without a rollback in between (segment roll-over, pruning),
+        # rollbacks after several commits, few pure Close/Reopen steps
+        sc, streak = 0, 0
+        for s in beh:
+            a, ok = s["a"], s.get("res", "Ok") == "Ok"
+            if a in ("Commit", "TryCommit", "OverlayCommit", "OverlayTryCommit") and ok:
+                streak += 1
+                sc += 2 + 2 * min(streak - 1, 3)
+            elif a == "Rollback" and ok:
+                sc += 2 + streak
+                streak = 0
+            elif a == "Reopen":
+                sc += 0.2
+        return sc
+    sc = 0
+    fin_w, ovl_w, sess_chain = {}, {}, {}
+    committed_keys = set()
+    for s in beh:
+        a = s["a"]
+        if a == "Begin" and s.get("res") == "Ok":
+            sess_chain[s["s"]] = list(s.get("chain") or [])
+            if s.get("chain"):
+                sc += 2
+                if any(v == "Nil" and k in committed_keys for o in s["chain"] for k, v in ovl_w.get(o, {}).items()):
+                    sc += 4          # a session on top of an overlay that deletes a committed key
+        elif a == "Finish":
+            fin_w[s["f"]] = (s["w"], sess_chain.get(s["s"], []))
+            if sess_chain.get(s["s"]):
+                sc += 3
+        elif a == "IntoOverlay":
+            w, chain = fin_w.get(s["f"], ({}, []))
+            ovl_w[s["o"]] = w
+            sc += 1
+            if any(v == "Nil" and k in committed_keys for k, v in w.items()):
+                sc += 2
+        elif a in ("Commit", "TryCommit") and s.get("res") == "Ok":
+            w, _ = fin_w.get(s["f"], ({}, []))
+            for k, v in w.items():
+                if v not in ("NoCh", "Nil"):
+                    committed_keys.add(k)
+                elif v == "Nil":
+                    committed_keys.discard(k)
+            sc += 1
+        elif a in ("OverlayCommit", "OverlayTryCommit"):
+            sc += 3 if s.get("res") == "Ok" else 2
+            if s.get("res") == "Ok":
+                for k, v in ovl_w.get(s["o"], {}).items():
+                    if v not in ("NoCh", "Nil"):
+                        committed_keys.add(k)
+                    elif v == "Nil":
+                        committed_keys.discard(k)
+        elif a == "Rollback" and s.get("res") == "Ok":
+            sc += 2
+        if s.get("res") in REJECTED:
+            sc += 1
+    return sc
+
+
 def interesting(beh, focus):
     names = [s["a"] for s in beh]
     commits = sum(1 for s in beh if s["a"] in ("Commit", "TryCommit", "OverlayCommit", "OverlayTryCommit")
